@@ -17,6 +17,7 @@ ASSUMPTIONS = ["VecDeque / Vec / sort behave as documented", "rustc nightly MIR 
 
 
 def run(ctx):
+    _wiring(ctx)
     ctx.rule('R13.1', 'histories: one push_back per detection, lock-step pop_front under len > history_length')
     ctx.floor('R13.1', M.rule_histories(ctx, 'R13.1'), 19)
     ctx.rule('R13.2', 'gallery: retain -> sort desc quality -> evict one if len >= max; push; recount')
@@ -26,3 +27,10 @@ def run(ctx):
     ctx.floor('R13.3', M.rule_collect_gate(ctx, 'R13.3', 'R13.3u'), 11)
     ctx.rule('R13.4', 'wasted-track conversions copy histories in order and last entries via back()')
     ctx.floor('R13.4', M.rule_wasted_conversions(ctx, 'R13.4'), 17)
+
+
+def _wiring(ctx):
+    """name-agreement wiring of the configuration values this property depends on (rules/wiring.py)"""
+    import wiring
+    ctx.rule('R13.5', 'configuration plumbing: same-named fields / parameters / setters / call arguments are not crossed')
+    ctx.floor('R13.5', wiring.run(ctx, 'R13.5', {'visual_max_observations', 'visual_minimal_quality_collect', 'visual_minimal_own_area_percentage_collect', 'history_length'}), 14)
